@@ -295,6 +295,25 @@ pub fn specs(tier: &str) -> Vec<ExpSpec> {
             }
         }
     }
+    // FAT12/16 volumes that carry their sector count in the 32-bit field (16-bit field zero), as every FAT16 volume
+    // above 65535 sectors does: the status byte is still the one at 0x25 - the layout follows the FAT width, not the field used
+    for ft in [FatType::Fat12, FatType::Fat16] {
+        let cfg = vol::tiny_with(ft, 8, 16);
+        for status in [0u8, 2] {
+            let mut c = with_status(&cfg, status);
+            let Base::Bytes(img) = &*c.base else { unreachable!() };
+            let mut img = img.clone();
+            let t16 = u16::from_le_bytes([img[19], img[20]]);
+            if t16 != 0 {
+                img[32..36].copy_from_slice(&u32::from(t16).to_le_bytes());
+                img[19] = 0;
+                img[20] = 0;
+            }
+            c.base = Arc::new(Base::Bytes(img));
+            c.name = format!("{}-total32", c.name);
+            v.push(ExpSpec::new(c, alphabet(512), if th { 4 } else { 3 }));
+        }
+    }
     // extended boot signature other than 0x29 (0x28: only the volume id is valid; 0x00: none of the three fields): the
     // status byte next to it is not one of the fields the signature announces
     for ft in [FatType::Fat12, FatType::Fat16, FatType::Fat32] {
